@@ -195,9 +195,16 @@ func reference(p *prepared, input any, n int) (r refRun) {
 	p.hold.reset(0, nil)
 	it := p.start(ctx, "code", univ.Copy(input))
 	for {
+		before := ctx.Polls
 		v, ok, pan := safeNext(it)
 		if pan != "" {
 			r.pan = fmt.Sprintf("gojq panicked in the uncancelled run after %d items (last: %s): %s", len(r.items), lastItem(r.items), pan)
+			return r
+		}
+		if ok && ctx.Polls == before {
+			// every step polls: a Next call that executes at least the
+			// returning instruction cannot leave the poll count unchanged
+			r.pan = fmt.Sprintf("promptness: Next returned item #%d %s without polling Done() once (polls stay at %d): steps that do not poll cannot be cancelled", len(r.items), mkItem(v, 0, 0), before)
 			return r
 		}
 		if !ok {
